@@ -73,7 +73,7 @@ package dragonboat
 //@ requires raftio.gSaved
 
 // the step pipeline: collect updates, send Replicate early, persist, then send the rest and commit
-//@ func (e *engine) processSteps [C04]
+//@ func (e *engine) processSteps [C04 C16]
 //@ noframe
 //@ nobounds
 //@ requires e.logdb != nil && !raftio.gSaved
@@ -90,8 +90,10 @@ package dragonboat
 //@ trusted reads the stop channel
 //@ func (e *engine) applySnapshotAndUpdate [C04]
 //@ trusted queues snapshot/apply tasks; sends no raft message
-//@ func (e *engine) onSnapshotSaved [C04]
+// C16: the flag file of a received snapshot is removed only after its record is durable
+//@ func (e *engine) onSnapshotSaved [C04 C16]
 //@ trusted removes snapshot flag files; sends no raft message
+//@ requires raftio.gSaved
 //@ func (e *engine) processMoreCommittedEntries [C04]
 //@ trusted marks the shard step-ready; sends no raft message
 //@ func (n *node) processReadyToRead [C04]
